@@ -954,7 +954,14 @@ impl<'b> InnerBucket<'b> {
             self.put_leaf(Leaf::Bucket(name, meta))?;
         }
 
-        let root = self.nodes[self.page_node_ids[&self.meta.root_page] as usize].clone();
+        let root_id = match self.page_node_ids.get(&self.meta.root_page) {
+            Some(id) => *id,
+            // Rebalancing promoted a page that this transaction never touched to be the new
+            // root (every other child of the old root was emptied and merged away), so there
+            // is no node to write for it: the committed page simply becomes the root.
+            None => return Ok(self.meta),
+        };
+        let root = self.nodes[root_id as usize].clone();
         let mut root = root.borrow_mut();
         let page_id = root
             .spill(self, tx_freelist, None)?
